@@ -8,7 +8,7 @@ Require Import RV.Lib.PyStr RV.Proofs.PyStrLemmas RV.Model.LoginCache RV.Proofs.
 Open Scope Z_scope.
 
 Definition key_is (m : pystr) (k : dval) : bool :=
-  match k with DKey kl _ _ _ => eqs kl m | _ => false end.
+  match k with DKey kl _ _ => eqs kl m | _ => false end.
 
 (* the entries of login m *)
 Definition fs (m : pystr) : pystr * sentry -> bool := fkey (fun k => eqs k m).
@@ -16,23 +16,28 @@ Definition ff (m : pystr) : dval * fentry -> bool := fkey (key_is m).
 Definition restrict (m : pystr) (c : cache) : cache :=
   mkCache (filter (fs m) (succ c)) (filter (ff m) (failed c)).
 
-Ltac beta_refl := cbv beta; cbn [key_is]; rewrite ?eqs_refl.
+(* whose entry a failed-cache key is can be read off the key -- because the login is its prefix (the digest
+   alone would not tell: cache_digest_not_injective); this is what the restriction to one login rests on *)
+Lemma key_is_failed_key : forall m s l p, key_is m (failed_key s l p) = eqs l m.
+Proof. reflexivity. Qed.
+
+Ltac beta_refl := cbv beta; unfold failed_key; cbn [key_is]; rewrite ?eqs_refl.
 
 Lemma backend_part_restrict : forall cfg bk now sd fd l pw dg res fc,
-  let kf := DKey l (c_salt cfg) l pw in
+  let kf := failed_key (c_salt cfg) l pw in
   let r := backend_part cfg bk now sd fd l pw kf dg res fc in
   let r' := backend_part cfg bk now (filter (fs l) sd) (filter (ff l) fd) l pw kf dg res fc in
   r_out r = r_out r' /\ r_called r = r_called r' /\ restrict l (r_cache r) = r_cache r'.
 Proof.
-  intros cfg bk now sd fd l pw dg res fc kf r r'. subst r r'. unfold backend_part.
+  intros cfg bk now sd fd l pw dg res fc kf r r'. subst r r' kf. unfold backend_part, failed_key.
   destruct (nonempty res); [cbn; auto|].
   destruct (nonempty (bk l pw)); cbn [r_out r_called r_cache];
     (split; [reflexivity|split; [reflexivity|]]); unfold restrict; cbn [succ failed]; f_equal.
   - unfold fs. rewrite (filter_key_dset eqs eqs_eq). beta_refl. reflexivity.
-  - unfold ff. rewrite (dget_filter_key dval_eqb dval_eqb_eq). subst kf. beta_refl.
-    destruct (dget dval_eqb fd (DKey l (c_salt cfg) l pw)); [|reflexivity].
+  - unfold ff. rewrite (dget_filter_key dval_eqb dval_eqb_eq). beta_refl.
+    destruct (dget dval_eqb fd (DKey l (c_salt cfg) (l ++ pw))); [|reflexivity].
     rewrite (filter_key_ddel dval_eqb dval_eqb_eq). beta_refl. reflexivity.
-  - unfold ff. rewrite (filter_key_dset dval_eqb dval_eqb_eq). subst kf. beta_refl. reflexivity.
+  - unfold ff. rewrite (filter_key_dset dval_eqb dval_eqb_eq). beta_refl. reflexivity.
 Qed.
 
 Lemma after_sweep_restrict : forall cfg bk now sd fd l D pw,
@@ -40,13 +45,13 @@ Lemma after_sweep_restrict : forall cfg bk now sd fd l D pw,
   let r' := after_sweep Vfix cfg bk now (filter (fs l) sd) (filter (ff l) fd) l D pw in
   r_out r = r_out r' /\ r_called r = r_called r' /\ restrict l (r_cache r) = r_cache r'.
 Proof.
-  intros cfg bk now sd fd l D pw r r'. subst r r'. unfold after_sweep. cbn [fix2 fix3 Vfix].
+  intros cfg bk now sd fd l D pw r r'. subst r r'. unfold after_sweep. cbn [fix2 fix3 Vfix]. unfold failed_key.
   unfold ff, fs. rewrite !(dget_filter_key dval_eqb dval_eqb_eq). rewrite !(dget_filter_key eqs eqs_eq). beta_refl.
   fold (ff l). fold (fs l).
-  destruct (dget dval_eqb fd (DKey l (c_salt cfg) l pw)) as [x|] eqn:Ef.
+  destruct (dget dval_eqb fd (DKey l (c_salt cfg) (l ++ pw))) as [x|] eqn:Ef.
   - cbn [r_out r_called r_cache]. auto.
   - destruct (dget eqs sd l) as [[[dc tc] uc]|] eqn:Es.
-    + destruct (dval_eqb (DHash tc l pw) dc).
+    + destruct (dval_eqb (cache_digest l pw tc) dc).
       * destruct (age_s now tc >? c_exp_s cfg).
         -- assert (E : filter (fs l) (ddel eqs sd l) = ddel eqs (filter (fs l) sd) l).
            { unfold fs. rewrite (filter_key_ddel eqs eqs_eq). cbv beta. rewrite eqs_refl. reflexivity. }
@@ -59,26 +64,26 @@ Qed.
 (* frame: an attempt under another login leaves m's entries alone *)
 Lemma backend_part_frame : forall cfg bk now sd fd l pw dg res fc m,
   eqs l m = false ->
-  restrict m (r_cache (backend_part cfg bk now sd fd l pw (DKey l (c_salt cfg) l pw) dg res fc))
+  restrict m (r_cache (backend_part cfg bk now sd fd l pw (failed_key (c_salt cfg) l pw) dg res fc))
   = restrict m (mkCache sd fd).
 Proof.
-  intros cfg bk now sd fd l pw dg res fc m Hne. unfold backend_part.
+  intros cfg bk now sd fd l pw dg res fc m Hne. unfold backend_part, failed_key.
   destruct (nonempty res); [reflexivity|].
   destruct (nonempty (bk l pw)); cbn [r_cache]; unfold restrict; cbn [succ failed]; f_equal.
   - unfold fs. rewrite (filter_key_dset eqs eqs_eq). cbv beta. rewrite Hne. reflexivity.
-  - destruct (dget dval_eqb fd (DKey l (c_salt cfg) l pw)); [|reflexivity].
-    unfold ff. rewrite (filter_key_ddel dval_eqb dval_eqb_eq). cbn [key_is]. rewrite Hne. reflexivity.
-  - unfold ff. rewrite (filter_key_dset dval_eqb dval_eqb_eq). cbn [key_is]. rewrite Hne. reflexivity.
+  - destruct (dget dval_eqb fd (DKey l (c_salt cfg) (l ++ pw))); [|reflexivity].
+    unfold ff. rewrite (filter_key_ddel dval_eqb dval_eqb_eq). unfold failed_key. cbn [key_is]. rewrite Hne. reflexivity.
+  - unfold ff. rewrite (filter_key_dset dval_eqb dval_eqb_eq). unfold failed_key. cbn [key_is]. rewrite Hne. reflexivity.
 Qed.
 
 Lemma after_sweep_frame : forall cfg bk now sd fd l D pw m,
   eqs l m = false ->
   restrict m (r_cache (after_sweep Vfix cfg bk now sd fd l D pw)) = restrict m (mkCache sd fd).
 Proof.
-  intros cfg bk now sd fd l D pw m Hne. unfold after_sweep. cbn [fix2 fix3 Vfix].
-  destruct (dget dval_eqb fd (DKey l (c_salt cfg) l pw)) as [x|]; [reflexivity|].
+  intros cfg bk now sd fd l D pw m Hne. unfold after_sweep. cbn [fix2 fix3 Vfix]. unfold failed_key.
+  destruct (dget dval_eqb fd (DKey l (c_salt cfg) (l ++ pw))) as [x|]; [reflexivity|].
   destruct (dget eqs sd l) as [[[dc tc] uc]|].
-  - destruct (dval_eqb (DHash tc l pw) dc).
+  - destruct (dval_eqb (cache_digest l pw tc) dc).
     + destruct (age_s now tc >? c_exp_s cfg).
       * rewrite backend_part_frame by exact Hne. unfold restrict. cbn [succ failed]. f_equal.
         unfold fs. rewrite (filter_key_ddel eqs eqs_eq). cbv beta. rewrite Hne. reflexivity.
